@@ -144,8 +144,12 @@ class GizaYamlDomain:
 
         result: Dict[n.FileId, nodes.GizaFile[Any]] = {}
         for fileid, cached_entry in cached_entries.items():
-            giza_file = pickle.loads(cached_entry[1])
-            assert isinstance(giza_file, nodes.GizaFile)
+            try:
+                giza_file = pickle.loads(cached_entry[1])
+                assert isinstance(giza_file, nodes.GizaFile)
+            except Exception as err:
+                logger.info("Error loading %s from cache: %s", fileid, err)
+                return None
             try:
                 for page in giza_file.pages or ():
                     if not page.dependencies.check_cache(get_hash):
